@@ -147,7 +147,12 @@ func ToValidatePeriod(now time.Time, v string, isRelative bool) (string, error) 
 		}
 		return timeToSMPPTimeFormatRelative(d), nil
 	}
-	return timeToSMPPTimeFormatAbsolute(now, now.Add(d)), nil
+	target := now.Add(d)
+	if target.UTC().Year()-now.UTC().Year() >= 100 {
+		// the absolute form has a two-digit year
+		return "", fmt.Errorf("absolute validity period must end within 100 years")
+	}
+	return timeToSMPPTimeFormatAbsolute(now, target), nil
 }
 
 const (
